@@ -32,33 +32,20 @@ theorem mem_pairOk {tbl : List Access} (h : raceFree tbl = true) {a b : Access} 
   rw [List.all_eq_true] at this
   exact this b hb
 
-/-- Two conflicting accesses by different threads, both rows of a table that satisfies the lockset
-    discipline and both performed under their recorded locks, are ordered by happens-before. -/
-theorem lockset_orders {tbl : List Access} {tr : List Ev} (hrf : raceFree tbl = true)
-    (_hwf : WF tr) (hres : Respects tbl tr)
-    {i j : Nat} {t u : Tid} {a b : Access} (hij : i < j)
+/-- The core of the lockset argument on executions: `t` holds a mutex when it performs an access at `i`, a different
+    goroutine `u` holds the same mutex at a later access `j`, one of the two (recorded) holds exclusive: then the
+    accesses are ordered by happens-before (release of `t`, acquisition of `u`). -/
+theorem hb_of_common_lock {tr : List Ev} {i j : Nat} {t u : Tid} {a b : Access} {h k : Hold} (hij : i < j)
     (hi : tr[i]? = some (.acc t a)) (hj : tr[j]? = some (.acc u b)) (htu : t ≠ u)
-    (hc : conflict a b = true) : HB tr i j := by
-  obtain ⟨hat, hal⟩ := hres i t a hi
-  obtain ⟨hbt, hbl⟩ := hres j u b hj
-  have hp := mem_pairOk hrf hat hbt
-  have hsh : sharesLock a b = true := by
-    unfold pairOk at hp; rw [hc] at hp; simpa using hp
-  unfold sharesLock at hsh
-  rw [List.any_eq_true] at hsh
-  obtain ⟨h, hh, hsh⟩ := hsh
-  rw [List.any_eq_true] at hsh
-  obtain ⟨k, hk, hmk⟩ := hsh
-  have hmk' : h.m = k.m ∧ (h.mode = .excl ∨ k.mode = .excl) := by simpa using hmk
-  have hm : h.m = k.m := hmk'.1
-  have hx : h.mode = .excl ∨ k.mode = .excl := hmk'.2
+    (hal : HoldsAtLeast tr i t h) (hbl : HoldsAtLeast tr j u k)
+    (hm : h.m = k.m) (hx : h.mode = .excl ∨ k.mode = .excl) : HB tr i j := by
   -- the actual holds: the recorded mode, or exclusive where shared was recorded
   obtain ⟨mh, hmh, si, hsi, hhi⟩ : ∃ mh : Mode, (h.mode = .excl → mh = .excl) ∧ HoldsAt tr i t ⟨h.m, mh⟩ := by
-    rcases hal h hh with hA | ⟨_, hA⟩
+    rcases hal with hA | ⟨_, hA⟩
     · exact ⟨h.mode, fun e => e, hA⟩
     · exact ⟨.excl, fun _ => rfl, hA⟩
   obtain ⟨mk, hmk', sj, hsj, hhj⟩ : ∃ mk : Mode, (k.mode = .excl → mk = .excl) ∧ HoldsAt tr j u ⟨k.m, mk⟩ := by
-    rcases hbl k hk with hA | ⟨_, hA⟩
+    rcases hbl with hA | ⟨_, hA⟩
     · exact ⟨k.mode, fun e => e, hA⟩
     · exact ⟨.excl, fun _ => rfl, hA⟩
   have hx' : mh = .excl ∨ mk = .excl := hx.imp hmh hmk'
@@ -89,6 +76,62 @@ theorem lockset_orders {tbl : List Access} {tr : List Ev} (hrf : raceFree tbl = 
   have e2 : HB tr (i + p) (i + q) := HB.sync (by omega) hP hQ hx'
   have e3 : HB tr (i + q) (i + d) := HB.po (by omega) hQ hj rfl
   exact HB.trans e1 (HB.trans e2 e3)
+
+/-- what `raceFree` gives for a conflicting pair of rows: a mutex recorded at both, once exclusively -/
+theorem common_hold {tbl : List Access} (hrf : raceFree tbl = true) {a b : Access} (ha : a ∈ tbl) (hb : b ∈ tbl)
+    (hc : conflict a b = true) :
+    ∃ h, h ∈ a.locks ∧ ∃ k, k ∈ b.locks ∧ h.m = k.m ∧ (h.mode = .excl ∨ k.mode = .excl) := by
+  have hp := mem_pairOk hrf ha hb
+  have hsh : sharesLock a b = true := by
+    unfold pairOk at hp; rw [hc] at hp; simpa using hp
+  unfold sharesLock at hsh
+  rw [List.any_eq_true] at hsh
+  obtain ⟨h, hh, hsh⟩ := hsh
+  rw [List.any_eq_true] at hsh
+  obtain ⟨k, hk, hmk⟩ := hsh
+  have hmk' : h.m = k.m ∧ (h.mode = .excl ∨ k.mode = .excl) := by simpa using hmk
+  exact ⟨h, hh, k, hk, hmk'.1, hmk'.2⟩
+
+/-- Two conflicting accesses by different threads, both rows of a table that satisfies the lockset
+    discipline and both performed under their recorded locks, are ordered by happens-before. -/
+theorem lockset_orders {tbl : List Access} {tr : List Ev} (hrf : raceFree tbl = true)
+    (_hwf : WF tr) (hres : Respects tbl tr)
+    {i j : Nat} {t u : Tid} {a b : Access} (hij : i < j)
+    (hi : tr[i]? = some (.acc t a)) (hj : tr[j]? = some (.acc u b)) (htu : t ≠ u)
+    (hc : conflict a b = true) : HB tr i j := by
+  obtain ⟨hat, hal⟩ := hres i t a hi
+  obtain ⟨hbt, hbl⟩ := hres j u b hj
+  obtain ⟨h, hh, k, hk, hm, hx⟩ := common_hold hrf hat hbt hc
+  exact hb_of_common_lock hij hi hj htu (hal h hh) (hbl k hk) hm hx
+
+/-! ### tokens as what they are: ordering assumptions
+
+A token (`own:writeBatch`, `once:Writer.once`, …) is not a mutex: no acquire/release event of it exists in a real
+execution.  Instead of pretending (hypothesis "the token is held"), the following variant takes the claim of a token
+annotation literally: two conflicting accesses whose rows share the token are ordered by the hand-off it names. -/
+
+/-- conflicting accesses of different goroutines whose rows share a token are ordered (the annotation's claim) -/
+def TokenOrdered (tokens : List Mutex) (tr : List Ev) : Prop :=
+  ∀ (i j : Nat) t u a b, i < j → tr[i]? = some (Ev.acc t a) → tr[j]? = some (Ev.acc u b) → t ≠ u → conflict a b = true →
+    (∃ h, h ∈ a.locks ∧ ∃ k, k ∈ b.locks ∧ h.m = k.m ∧ tokens.contains h.m = true) → HB tr i j
+
+/-- every access is a table row performed while its recorded REAL locks are held -/
+def RespectsReal (tokens : List Mutex) (tbl : List Access) (tr : List Ev) : Prop :=
+  ∀ (i : Nat) t a, tr[i]? = some (Ev.acc t a) → a ∈ tbl ∧ ∀ h, h ∈ a.locks → tokens.contains h.m = false → HoldsAtLeast tr i t h
+
+/-- **lockset_sound_tokens** — the lockset discipline with tokens read as ordering assumptions. -/
+theorem lockset_sound_tokens {tbl : List Access} (tokens : List Mutex) (hrf : raceFree tbl = true) :
+    ∀ tr : List Ev, WF tr → RespectsReal tokens tbl tr → TokenOrdered tokens tr → ¬ Race tr := by
+  intro tr _ hres htok ⟨i, j, t, u, a, b, hij, hi, hj, htu, hc, hn⟩
+  apply hn
+  obtain ⟨hat, hal⟩ := hres i t a hi
+  obtain ⟨hbt, hbl⟩ := hres j u b hj
+  obtain ⟨h, hh, k, hk, hm, hx⟩ := common_hold hrf hat hbt hc
+  by_cases htk : tokens.contains h.m = true
+  · exact htok i j t u a b hij hi hj htu hc ⟨h, hh, k, hk, hm, htk⟩
+  · have htk' : tokens.contains h.m = false := by simpa using htk
+    have htk'' : tokens.contains k.m = false := by rw [← hm]; exact htk'
+    exact hb_of_common_lock hij hi hj htu (hal h hh htk') (hbl k hk htk'') hm hx
 
 /-- **lockset_sound** — if the table satisfies the lockset discipline then no well-formed execution
     that respects the table contains a data race. -/
@@ -312,5 +355,20 @@ theorem repo_no_race_of_conformance {tr : List Ev} (hwf : WF tr)
     (htok : ∀ (i : Nat) t a, tr[i]? = some (Ev.acc t a) → ∀ h, h ∈ a.locks → Gen.tokenIds.contains h.m = true → HoldsAtLeast tr i t h) :
     ¬ Race tr :=
   repo_no_race tr hwf (repo_respects_of_conformance hwf hconf hasm hrows htok)
+
+/-- **repo_no_race_of_conformance_tokens** — the same with the tokens read as ordering assumptions (no fictitious
+    token events): goroutines follow the skeletons, accesses are table rows, annotated assumptions hold where marked,
+    and accesses protected by a token are ordered by its hand-off. -/
+theorem repo_no_race_of_conformance_tokens {tr : List Ev} (hwf : WF tr)
+    (hconf : ∀ t, Conforms tr t) (hasm : ∀ t, AsmOk t LState.init tr)
+    (hrows : ∀ (i : Nat) t a, tr[i]? = some (Ev.acc t a) → a ∈ Gen.accesses)
+    (htok : TokenOrdered Gen.tokenIds tr) : ¬ Race tr := by
+  refine lockset_sound_tokens Gen.tokenIds repo_race_free tr hwf ?_ htok
+  intro i t a hi
+  refine ⟨hrows i t a hi, fun h hh hnt => ?_⟩
+  have hreal : h ∈ realLocks Gen.tokenIds a := by
+    unfold realLocks
+    exact List.mem_filter.2 ⟨hh, by simpa using hnt⟩
+  exact repo_real_locks_held hwf (hconf t) (hasm t) hi (hrows i t a hi) h hreal
 
 end KV.C10
